@@ -322,6 +322,17 @@ func spaces(thorough bool) []Params {
 		add(Params{Name: "hint-conf-txid-n1-restarts2", Clients: []ClientSpec{conf("txid", 1)}, Contents: confOnly, Hints: allHints, Limit: 4, Depth: 10, Restarts: 2})
 	}
 	add(Params{Name: "hint-spend-op-restarts2", Clients: []ClientSpec{{Kind: "op"}}, Contents: spendOnly, Hints: allHints, Limit: 4, Depth: d(9, 11), Restarts: 2})
+	// PAIR family: two UNRELATED watched objects in one notifier (second tx U / second
+	// outpoint O', see model_test.go). TxNotifier's by-height indexes (confirm-height
+	// buckets, initial-height sets, spend-height sets) are keyed by height only and shared
+	// by all requests, so their maintenance can only go wrong between requests of different
+	// objects whose heights coincide while an event (reorg, cancel, rescan result, maturity)
+	// concerns one of them. Reduced alphabet: no restart budget, hints {old, tip1}.
+	// (Placed before the larger single-object spaces so that a deadline on a loaded machine
+	// does not cut the whole family.)
+	for _, q := range pairSpaces(thorough) {
+		add(q)
+	}
 	// shortest reorg limit: pruning (Done) and final blocks reached within few ops
 	add(Params{Name: "conf-txid-n1+n2-limit2", Clients: []ClientSpec{conf("txid", 1), conf("txid", 2)}, Contents: confOnly, Hints: allHints, Limit: 2, Depth: d(7, 10), Restarts: 1})
 	// two spend clients of the same outpoint, conflicting spenders
@@ -334,6 +345,48 @@ func spaces(thorough bool) []Params {
 	// client operations between ConnectTip and NotifyHeight
 	add(Params{Name: "split-conf-txid-n1+n2", Clients: []ClientSpec{conf("txid", 1), conf("txid", 2)}, Contents: confOnly, Hints: []string{"old", "tip1"}, Limit: 4, Depth: d(7, 10), Split: true})
 	add(Params{Name: "split-spend-op+sscript", Clients: []ClientSpec{{Kind: "op"}, {Kind: "sscript"}}, Contents: spendOnly, Hints: []string{"old", "tip1"}, Limit: 4, Depth: d(6, 8), Split: true})
+	return out
+}
+
+func obj2(c ClientSpec) ClientSpec { c.Obj = 1; return c }
+
+var (
+	pairConf  = []string{"e", "T", "U", "TU"}
+	pairSpend = []string{"e", "S1", "R1", "S1R1"}
+	pairHints = []string{"old", "tip1"}
+)
+
+// pairSpaces: client 0 watches object 0, client 1 watches object 1.
+func pairSpaces(thorough bool) []Params {
+	var out []Params
+	confPair := func(a, b uint32, depth int) {
+		out = append(out, Params{Name: fmt.Sprintf("pair-conf-n%d+n%d", a, b), Clients: []ClientSpec{conf("txid", a), obj2(conf("txid", b))},
+			Contents: pairConf, Hints: pairHints, Limit: 4, Depth: depth})
+	}
+	if !thorough {
+		confPair(3, 2, 7)
+		confPair(2, 2, 7)
+		confPair(2, 1, 6)
+		out = append(out, Params{Name: "pair-spend-op+op", Clients: []ClientSpec{{Kind: "op"}, {Kind: "op", Obj: 1}},
+			Contents: pairSpend, Hints: pairHints, Limit: 4, Depth: 6})
+		return out
+	}
+	// every unordered pair of depths (the two objects are symmetric)
+	for a := uint32(1); a <= 3; a++ {
+		for b := uint32(1); b <= a; b++ {
+			d := 8
+			if a == 3 && b == 2 {
+				d = 9 // smallest pair of distinct depths with overlapping pending windows
+			}
+			confPair(a, b, d)
+		}
+	}
+	out = append(out, Params{Name: "pair-spend-op+op", Clients: []ClientSpec{{Kind: "op"}, {Kind: "op", Obj: 1}},
+		Contents: pairSpend, Hints: pairHints, Limit: 4, Depth: 8})
+	out = append(out, Params{Name: "pair-spend-op+sscript", Clients: []ClientSpec{{Kind: "op"}, {Kind: "sscript", Obj: 1}},
+		Contents: pairSpend, Hints: pairHints, Limit: 3, Depth: 7})
+	out = append(out, Params{Name: "pair-conf-script-n2+txid-n2-restart", Clients: []ClientSpec{conf("script", 2), obj2(conf("txid", 2))},
+		Contents: pairConf, Hints: pairHints, Limit: 3, Depth: 8, Restarts: 1})
 	return out
 }
 
@@ -383,7 +436,7 @@ func TestC14(t *testing.T) {
 		replay(t, run, rp)
 		return
 	}
-	budget := 150 * time.Second
+	budget := 200 * time.Second
 	if run.Thorough() {
 		budget = 27 * time.Minute
 	}
@@ -555,12 +608,14 @@ func TestC14(t *testing.T) {
 			"notifier_calls_under_quiescence_watchdog": st.NotifierCalls.Load(), "hint_commits": st.HintCommits.Load(),
 			"suffix_probe_states": st.ProbeStates.Load(), "suffix_probe_states_skipped_no_persisted_hint": st.ProbeSkipped.Load(),
 			"suffix_probes_executed_stop_then_connect": st.ProbeSuffixes.Load(),
+			"pair_ops_ending_with_both_objects_events_in_one_block":             st.PairSameEventHeight.Load(),
+			"pair_ops_ending_with_both_objects_queued_for_one_maturity_height": st.PairSameMaturityPending.Load(),
 		},
 		"stale_scan_candidates": map[string]any{"count": st.StaleCandidates.Load(), "examples": candidates,
 			"note": "rescan result computed at dispatch time and delivered after later chain ops (thorough tier only); analysed by hand, never auto-reported"},
 	}
 	run.Assumptions = append(run.Assumptions,
-		"universe: heights 100..106, one watched tx T (txid+script / script-only), one outpoint O with two conflicting spenders; numConfs 1..3; reorg safety limit 3 or 4; no block buried by the limit below the highest tip seen is disconnected",
+		"universe: heights 100..106, one watched tx T (txid+script / script-only), one outpoint O with two conflicting spenders (pair spaces: plus an unrelated second watched tx U and second outpoint O' with one spender, nothing shared with T/O but the heights); numConfs 1..3; reorg safety limit 3 or 4; no block buried by the limit below the highest tip seen is disconnected",
 		"clients read their channels promptly (drained after every notifier call); client height hints are valid promises (the event is not on the active chain below the hint at registration time)",
 		"while the notifier is down the chain only grows, and after a start no block is disconnected until every request with a persisted hint has registered again (a notifier cannot lower the hint of a request it does not know; lnd documents the limitation at channeldb.CacheConfig.QueryDisable)",
 		"the per-space restart budget bounds the search only: the terminal suffix probes stop the notifier in any state (a node can go down at any time)",
